@@ -516,6 +516,9 @@ def _init():
         _kill_env(env)
         del env
     shutil.rmtree(root, ignore_errors=True)
+    import gc
+    gc.collect()
+    gc.freeze()       # forked children do not copy the warm heap when their GC runs
     _warm = True
 
 
@@ -670,7 +673,10 @@ def judge(events, obs, expected):
     steps = walk(events)
     why = poison(steps)
     first = PROBES[diffs[0]]
-    if why == 'file':
+    o = obs[diffs[0]]
+    if len(o) == 3 and o[0] == 'EXC':
+        site = o[1]               # an exception the fresh process does not raise
+    elif why == 'file':
         site = 'stale@mtime-not-advanced'
     elif why == 'dir':
         site = 'stale@dir-mtime-not-advanced'
@@ -745,6 +751,9 @@ def run(ctx):
         return
     _ORACLE = {keys[i]: pres.results[i] for i in range(len(keys))}
     oracle_classes = len({snap_key(v) for v in _ORACLE.values()})
+    ctx.note('oracle table: %d snapshots, %d distinct observations, %.0f s'
+             % (len(keys), oracle_classes, time.time() - ctx.t0))
+    _init()     # warm up once; the pool's workers are forked from this process
 
     prefixes = {}        # prefix id -> digest of the observation (all runs must agree)
     verdicts = {}        # prefix id -> (site, detail) of the first run that judged it
